@@ -528,9 +528,27 @@ def graph_masks(tier, seed):
     return out
 
 
+def mask_of(n, E):
+    idx = {p: i for i, p in enumerate(S.pairs(n))}
+    return sum(1 << idx[(min(a, b), max(a, b))] for a, b in E)
+
+
 def workload(tier, seed):
     quick = tier == "quick"
     gm = graph_masks(tier, seed)
+    # tilings decided exactly on 12-14 vertices (one variable per vertex): forests with isolated vertices, hubs, caterpillars --
+    # graphs in which different closed neighbourhoods are written with the same digits ({1,2} / {12}, {1,23} / {12,3})
+    import random as _random
+    rr = _random.Random("c02tiling-%d" % seed)
+    for n in (12, 13, 14):
+        shapes = [[(2, v) for v in range(1, 12) if v != 2], [(1, 2)], [(1, 2), (3, 12)], [(v, v + 1) for v in range(1, 7)] + [(v, v + 6) for v in range(1, 7)],
+                  [(v, v + 1) for v in range(1, n)], [(1, v) for v in range(2, n + 1)], [(1, 2), (3, 4), (5, 6), (7, 8), (9, 10), (11, 12)]]
+        for _ in range(4 if quick else 40):
+            shapes.append(rr.sample(S.pairs(n), rr.randint(3, n)))
+        masks = [mask_of(n, E) for E in shapes]
+        for cls in ("CNF", "OPB"):
+            for ch in chunks(masks, 3):
+                yield "tiling", {"cls": cls, "n": n, "masks": ch, "as_nx": False}
     for cls in ("CNF", "OPB"):
         for n, masks in gm:
             for as_nx in (False, True, "duck", "nx-mixed"):
@@ -812,8 +830,18 @@ def case_large(ctx, cls, rseed):
             pool.append({x[(u, p2[u - 1])] for u in range(1, n + 1)})
         sampled_compare(ctx, "iso", desc, F, pool, predi, ("iso-large", n, tuple(E1), tuple(perm), cls, rseed))
     # ---- dominating set / tiling on larger graphs: full assignments built from vertex sets
-    for n, m, d in ((10, 14, 4), (14, 20, 5), (33, 50, 8), (65, 100, 12)):
-        E = random_graph(r, n, m)
+    # (also graphs of 12-25 vertices in which different closed neighbourhoods are written with the same digits: {1,2} and {12},
+    # {1,23} and {12,3}; vertices of degree 0 and 1 next to a hub)
+    structured = []
+    for n in (12, 13, 21, 25):
+        hub = [(2, v) for v in range(1, 12) if v != 2]                   # hub 2 joined to 1, 3..11; 12.. isolated
+        structured.append((n, sorted((min(a, b), max(a, b)) for a, b in hub), 1))
+        structured.append((n, sorted((min(a, b), max(a, b)) for a, b in hub + [(1, n)]), 2))
+        cat = [(v, v + 1) for v in range(1, 7)] + [(v, v + 6) for v in range(1, 7) if v + 6 <= n]     # a caterpillar
+        structured.append((n, sorted(set(cat)), 4))
+        structured.append((n, [(1, 2), (3, 12)] + ([(1, 23)] if n >= 23 else []), n - 3))
+    for n, m, d in [(10, 14, 4), (14, 20, 5), (33, 50, 8), (65, 100, 12)] + structured:
+        E = random_graph(r, n, m) if isinstance(m, int) else list(m)
         N = closed_nbhd(n, E)
         for alt in (False, True):
             desc = "DominatingSet(random graph %d vertices %d edges, %d, alternative=%s)[%s]" % (n, len(E), d, alt, cls)
@@ -828,6 +856,21 @@ def case_large(ctx, cls, rseed):
                 Sset = sorted(r.sample(range(1, n + 1), r.randint(1, d)))
                 t = {x[(v,)] for v in Sset} | {f[(v, i + 1)] for i, v in enumerate(Sset)}
                 pool.append((t, all(N[v] & set(Sset) for v in N)))
+            if not isinstance(m, int):
+                # the sets that dominate everything but one vertex of small degree
+                for skip in range(1, n + 1):
+                    if len(N[skip]) <= 2:
+                        left, Sset = set(range(1, n + 1)) - N[skip], []
+                        while left and len(Sset) < d:
+                            v = max((u for u in range(1, n + 1) if u not in N[skip]), key=lambda u: (len(N[u] & left), -u), default=None)
+                            if v is None or not (N[v] & left):
+                                break
+                            Sset.append(v)
+                            left -= N[v]
+                        if Sset:
+                            Sset = sorted(Sset)
+                            t = {x[(v,)] for v in Sset} | {f[(v, i + 1)] for i, v in enumerate(Sset)}
+                            pool.append((t, all(N[v] & set(Sset) for v in N)))
             # greedy dominating sets so that satisfying assignments are present
             for _ in range(10):
                 left, Sset = set(range(1, n + 1)), []
